@@ -22,7 +22,7 @@ TL_OPS = {"tlwith", "tlnest"}
 LZ_OPS = {"lzget"}
 # operations that return a value (append to regs)
 RET_OPS = {"ld", "rmw", "cas", "await", "uld", "trylock", "tryread", "trywrite", "recv",
-           "tryrecv", "acount", "agetmut", "aunwrap", "aptreq", "tlwith", "tlnest", "lzget"}
+           "tryrecv", "acount", "agetmut", "aunwrap", "aptreq", "tlwith", "tlnest", "lzget", "blockon"}
 BLOCKING_OPS = {"join", "park", "lock", "read", "write", "cvwait", "nwait", "recv", "await"}
 
 
@@ -54,7 +54,7 @@ def br(r, v, n): return I("br", r=r, v=v, w=n)
 def normalize(p):
     """Fill in object tables from the instructions. Returns a new dict."""
     q = {"threads": [[{**DEFAULT, **i} for i in th] for th in p["threads"]]}
-    sets = {k: set(p.get(k, [])) for k in ("atoms", "cells", "mtxs", "rws", "cvs", "ntfs", "chans", "trks", "tls", "lzs")}
+    sets = {k: set(p.get(k, [])) for k in ("atoms", "cells", "mtxs", "rws", "cvs", "ntfs", "chans", "trks", "tls", "lzs", "aws")}
     if isinstance(p.get("arcs"), list):     # already normalized: rebuild the declaration
         arcs = {a: {"h0": [h for h in p.get("h0", []) if p["hmap"][h] == a], "cell": p.get("acell", {}).get(a, "")}
                 for a in p["arcs"]}
@@ -92,6 +92,10 @@ def normalize(p):
                 sets["tls"].add(i["o"])
                 if op == "tlnest": sets["tls"].add(i["o2"])
             elif op in LZ_OPS: sets["lzs"].add(i["o"])
+            elif op == "blockon":
+                sets["aws"].add(i["o"])
+                sets["atoms"].add(i["o2"])
+            elif op == "wake": sets["aws"].add(i["o"])
             elif op in ARC_OPS:
                 assert i["o"] in hmap, ("unknown handle", i)
     for k, s in sets.items():
@@ -137,7 +141,7 @@ def tla_prog(q):
     parts = {
         "threads": tla([[{f: i[f] for f in FIELDS} for i in th] for th in q["threads"]]),
     }
-    for k in ("atoms", "cells", "mtxs", "rws", "cvs", "ntfs", "chans", "arcs", "trks", "h0", "tls", "lzs"):
+    for k in ("atoms", "cells", "mtxs", "rws", "cvs", "ntfs", "chans", "arcs", "trks", "h0", "tls", "lzs", "aws"):
         parts[k] = tla(set(q.get(k, [])))
     parts["hmap"] = tla_fun(q["hmap"])
     parts["acell"] = tla_fun(q["acell"])
